@@ -599,7 +599,7 @@ def do_lineprefix(s, prefix):
         prefix = Markup(prefix)
         newline = Markup(newline)
 
-    lines = s.splitlines()
+    lines = soft_unicode(s).splitlines()
     rv = newline.join(prefix + line if line else line for line in lines)
 
     return rv
